@@ -272,7 +272,10 @@ class MolecularContainer:
                 return pi(which, next_pH, min_, max_)
             return pH
 
-        start = (grid[0] + grid[1]) / 2, grid[0], grid[1]
+        # the window may be given from high to low pH (like a descending
+        # grid); the bisection needs min_ <= max_
+        low, high = min(grid[0], grid[1]), max(grid[0], grid[1])
+        start = (low + high) / 2, low, high
 
         return (
             pi(WHICH_FOLDED, *start),
